@@ -72,6 +72,24 @@ def R_walkoff(Wp, Ws, L, t):
     return s / 4
 
 
+def R_integrand(Wp, Ws, L, t, z1, z2):
+    d1, d2 = 0.5 * L * t * (1 + z1), 0.5 * L * t * (1 + z2)
+    return math.exp(-(d1 * d1 + d2 * d2) / Wp**2 + (d1 + d2)**2 * Ws**2 / (2 * Wp**2 * (Wp**2 + Ws**2)))
+
+
+def R_walkoff_simpson(Wp, Ws, L, t, n=96):
+    """independent second quadrature (composite Simpson) of the same integrand"""
+    if t == 0:
+        return 1.0
+    h = 2.0 / n
+    w = [1 if i in (0, n) else (4 if i % 2 else 2) for i in range(n + 1)]
+    s = 0.0
+    for i in range(n + 1):
+        for j in range(n + 1):
+            s += w[i] * w[j] * R_integrand(Wp, Ws, L, t, -1 + i * h, -1 + j * h)
+    return s * h * h / 9 / 4
+
+
 def eta(Wi, Wh):
     return (2 * Wi * Wh / (Wi * Wi + Wh * Wh))**2
 
@@ -136,31 +154,42 @@ def oracle_eff(ctx, o):
         if finite(g) and finite(e) and abs(g - e) <= 4e-16 * abs(e):
             continue
         rep2 = dict(rep, expected={n: v for n, v in zip(names, exp)})
-        ctx.violation("S5", f"{nm} efficiency {g!r} differs from the formula value {e!r} for rates ({c!r}, {rs!r}, {ri!r})",
+        ctx.violation("S5", f"{nm} efficiency {g!r} differs from the IEEE evaluation {e!r} of the code's formula for rates ({c!r}, {rs!r}, {ri!r})",
                       {"kind": "eff_formula", "which": nm, "class": "regular" if in_range else "extreme"}, rep2)
     if in_range and c <= rs and c <= ri:
         for nm, g in zip(names, got):
             if not (0 <= g <= 1 + 4e-16):
                 ctx.violation("S5", f"{nm} efficiency {g!r} outside [0,1] although coincidences <= both singles", {"kind": "eff_unit", "which": nm}, rep)
-    if regular and not in_range:
-        # C/sqrt(Rs*Ri) with a product that over/underflows binary64: recorded, not a violation (rates of 1e±150 Hz are not physical)
-        true_sym = None
-        if rs > 0 and ri > 0:
-            true_sym = float(Fraction(c) / Fraction(math.sqrt(rs))) / math.sqrt(ri) if c > 0 else 0.0
-        if true_sym is not None and finite(true_sym) and not (finite(got[0]) and abs(got[0] - true_sym) <= 1e-9 * max(true_sym, 1e-300)):
-            ctx.note(f"extreme rates ({c:g}, {rs:g}, {ri:g}) Hz: symmetric efficiency is {got[0]!r}, C/sqrt(Rs*Ri) = {true_sym!r} (the product Rs*Ri leaves the binary64 range)")
+    if regular and not in_range and rs > 0 and ri > 0:
+        # non-negative finite rates whose product Rs*Ri leaves the binary64 range: the property's formula C/sqrt(Rs*Ri) is
+        # finite, the code's value is not it (0 or inf) — a genuine, small defect of efficiencies_from_counts
+        true_sym = float(Fraction(c) / Fraction(math.sqrt(rs))) / math.sqrt(ri) if c > 0 else 0.0
+        if finite(true_sym) and not (finite(got[0]) and abs(got[0] - true_sym) <= 1e-9 * max(true_sym, 1e-300)):
+            rep2 = dict(rep, expected_symmetric=true_sym)
+            ctx.violation("S5", f"symmetric efficiency of the non-negative finite rates ({c:g}, {rs:g}, {ri:g}) Hz is {got[0]!r}; C/sqrt(Rs*Ri) = {true_sym!r} "
+                                f"(the product Rs*Ri over/underflows binary64)", {"kind": "efficiency_symmetric_overflow"}, rep2)
 
 
 def setup_sig(s):
     return {"family": s["family"], "collinear": s["signal_theta_external_deg"] == 0}
 
 
-def classify(ctx, o):
-    """cause of an exceedance: re-evaluate the point with the diagnostic singles integral of harness/src/c08_diag.rs (pairwise
-    square roots on the branch next to the x-coefficient).  If the exceedance disappears, the cause is the square-root branch
-    cut of src/phasematch/singles.rs:167."""
-    d = o.get("diag")
-    if d is None and getattr(ctx, "binp", None):
+def params_of(rec):
+    return {k: (f64_of_hex(v) if isinstance(v, str) and v.startswith("0x") else v) for k, v in rec.items()}
+
+
+def classify(ctx, o, which):
+    """cause of an exceedance.  The scalars of the setup (and of its exchanged twin, through which idler singles are computed)
+    are dumped by the harness through public accessors; vlib/C08_branch.py evaluates the GENERATED singles integrand
+    (coq/Gen/PMSingles.v) on them and tracks the argument sum of the six factors under the square root over [-1,1]^2.  If the
+    principal root changes sign relative to the continuous one on part of the square (argument sum crossing an odd multiple
+    of pi) AND the integral with the continuous root removes the exceedance, the cause is the square-root branch of
+    src/phasematch/singles.rs:167 (finding F11); otherwise the cause is unknown."""
+    from vlib import C08_branch
+    key = o["tag"] if o["tag"].startswith("corpus:") else None
+    recs = getattr(ctx, "corpus_params", {})
+    rec = recs.get(key.split(":", 1)[1]) if key else None
+    if rec is None and getattr(ctx, "binp", None):
         s = o["setup"]
         integ = o["integrator"]
         name = ("simpson%d" % integ["divs"]) if integ.get("method") == "Simpson" else ("gl%d" % integ.get("degree", 40))
@@ -170,23 +199,30 @@ def classify(ctx, o):
             f.write(json.dumps({"id": "x", "config": s["config"], "idler_waist_um": s["idler_waist_um"], "ws": o["ws"], "wi": o["wi"],
                                 "integrator": name, "setup": s}) + "\n")
         try:
-            r = subprocess.run([ctx.binp, "c08", "corpus", tmp], capture_output=True, text=True, timeout=300, env=dict(os.environ, VERIF_C08_DIAG="1"))
+            r = subprocess.run([ctx.binp, "c08", "corpus", tmp], capture_output=True, text=True, timeout=300)
             for line in r.stdout.splitlines():
                 if line.startswith("{"):
-                    rec = json.loads(line)
-                    if rec.get("kind") == "pw":
-                        d = rec.get("diag")
+                    x = json.loads(line)
+                    if x.get("kind") == "params":
+                        rec = x
         except Exception:
-            d = None
+            rec = None
         finally:
             if os.path.exists(tmp):
                 os.remove(tmp)
-    if not d or any(x is None or x != x for x in d):
+    if rec is None:
         return "unknown", None
-    c, ss, si = fh(o["jsi"]), fh(o["singles_s"]), fh(o["singles_i"])
-    fixed = (c <= ss * d[0] * (1 + REL_SLACK)) and (c <= si * d[1] * (1 + REL_SLACK))
-    return ("singles_sqrt_branch" if fixed else "unknown"), {"ratio_signal_with_continuous_branch": c / (ss * d[0]) if ss * d[0] else None,
-                                                             "ratio_idler_with_continuous_branch": c / (si * d[1]) if si * d[1] else None}
+    try:
+        res = C08_branch.analyse(params_of(rec["swapped" if which == "idler" else "direct"]), 40)
+    except Exception as e:   # the generated file left the shape the evaluator understands
+        return "unknown", {"branch_analysis_error": str(e)[:200]}
+    if res is None:
+        return "unknown", {"branch_analysis": "generated singles model could not be evaluated"}
+    c = fh(o["jsi"])
+    v = fh(o["singles_i"] if which == "idler" else o["singles_s"])
+    fixed = res["mixed"] and c <= v * res["ratio_continuous_over_source"] * (1 + 1e-3)
+    res = dict(res, ratio_after_continuous_root=c / (v * res["ratio_continuous_over_source"]) if v else None)
+    return ("singles_sqrt_branch" if fixed else "unknown"), res
 
 
 def oracle_pw(ctx, o):
@@ -206,7 +242,7 @@ def oracle_pw(ctx, o):
         return
     for which, v in (("signal", ss), ("idler", si)):
         if c > v * (1 + REL_SLACK):
-            cause, extra = classify(ctx, o)
+            cause, extra = classify(ctx, o, which)
             rep["cause"] = cause
             rep["diagnostic"] = extra
             if o["tag"].startswith("corpus:"):
@@ -320,7 +356,29 @@ def correspondence(ctx, obs):
         cid = f"F{i}"
         goals.append((cid, f"Rabs (F_walkoff {coq_q(X)} - {coq_q(Fraction(F_walkoff(x)))}) <= 1e-9", "case_F"))
         fmeta[cid] = x
+    # R: the oracle's integrand against the Coq definition R_integrand at two points of the square (interval), and the
+    # oracle's Gauss-Legendre value against an independent composite-Simpson value of the same integrand (Python): the
+    # quadrature rule is generic, a transcription error would sit in the integrand
+    rmeta = {}
+    for i, o in enumerate(x for x in obs if x["kind"] == "lim"):
+        Wp, Ws, Wi, L, rho = (fh(o[k]) for k in ("wp", "ws", "wi", "len", "rho"))
+        t = math.tan(rho)
+        if t == 0 or i >= 16:
+            continue
+        for j, (z1, z2) in enumerate(((Fraction(3, 10), Fraction(-1, 2)), (Fraction(-4, 5), Fraction(9, 10)))):
+            v = R_integrand(Wp, Ws, L, t, float(z1), float(z2))
+            cid = f"R{i}_{j}"
+            goals.append((cid, f"Rabs (R_integrand {coq_q(Fraction(Wp))} {coq_q(Fraction(Ws))} {coq_q(Fraction(L))} {coq_q(Fraction(t))} {coq_q(z1)} {coq_q(z2)} - {coq_q(Fraction(v))}) <= 1e-12",
+                          "case_Rint"))
+            rmeta[cid] = (Wp, Ws, L, t, float(z1), float(z2), v)
+        a, b = R_walkoff(Wp, Ws, L, t), R_walkoff_simpson(Wp, Ws, L, t)
+        if abs(a - b) > 1e-8 * a:
+            ctx.violation("S4", f"oracle's two quadratures of R disagree: {a!r} vs {b!r}", {"kind": "model_R"}, {"Wp": Wp, "Ws": Ws, "L": L, "tan_rho": t}, found_input=False)
     res = run_interval_cases(ctx, "C08", IMPORTS, goals)
+    for cid, ok in res.items():
+        if not ok and cid in rmeta:
+            ctx.violation("S4", f"oracle's integrand of R disagrees with the Coq definition R_integrand at {rmeta[cid][:6]}", {"kind": "model_R"},
+                          {"args": rmeta[cid]}, found_input=False)
     for cid, ok in res.items():
         if not ok and cid in fmeta:
             ctx.violation("S4", f"oracle value of F({fmeta[cid]!r}) disagrees with the Coq definition of the walk-off factor", {"kind": "model_F"},
@@ -335,17 +393,23 @@ def correspondence(ctx, obs):
                       {"kind": "model_eff"}, rep, found_input=False)
 
 
+def real_found(ctx):
+    """a concrete failing input that is NOT one of the listed known findings (those must not mask a broken obligation)"""
+    fnd = load_findings()
+    return any(v["found_input"] and not match_finding(v, fnd, ctx.prop) for v in ctx.violations)
+
+
 def run(ctx):
     binp = build_harness(ctx)
-    msgs, spans = regen(ctx, ["spectrum", "efficiencies"])
+    msgs, spans = regen(ctx, ["spectrum", "efficiencies", "pm_integrand", "pm_singles"])
     ctx.cov["translated_spans"] = {k: v for k, v in spans.items() if k.startswith(("spdc::efficiencies", "jsa::joint_spectrum", "phasematch::normalization"))}
     for m in msgs:
         ctx.proof_failures.append(("Gen/Efficiencies.v", "translator", m))
-    proved = (not msgs) and prove(ctx, "C08", extra_targets=["Proofs/C08_tac.vo"])
+    proved = (not msgs) and prove(ctx, "C08", extra_targets=["Proofs/C08_tac.vo"] + ([] if ctx.tier == "quick" else ["Proofs/PMCaseTac.vo"]))
     if proved:   # the refuted lemmas live outside the property's obligations: a failure here is only noted
-        okf, _, _ = coq_build(ctx, ["Findings/C08_singles_branch.vo"])
+        okf, _, _ = coq_build(ctx, ["Findings/C08_singles_branch.vo", "Findings/C08_symmetric_overflow.vo"])
         if not okf:
-            ctx.note("Findings/C08_singles_branch.v no longer compiles against the regenerated model")
+            ctx.note("a Findings/C08_*.v file no longer compiles against the regenerated model")
     quick = ctx.tier == "quick"
     args = [48, 3, 24, 6] if quick else [600, 6, 240, 40]
     ctx.binp = binp
@@ -354,7 +418,9 @@ def run(ctx):
     corpus_file = os.path.join(HARNESS, "corpus", "c08.jsonl")
     cobs = []
     if os.path.exists(corpus_file):
-        cobs = [o for o in run_harness(ctx, binp, ["c08", "corpus", corpus_file], env={"VERIF_C08_DIAG": "1"}) if o["kind"] != "witness"]
+        call = run_harness(ctx, binp, ["c08", "corpus", corpus_file])
+        ctx.corpus_params = {o["id"]: o for o in call if o["kind"] == "params"}
+        cobs = [o for o in call if o["kind"] not in ("witness", "params")]
         oracle(ctx, cobs)
         ids = {o["tag"] for o in cobs if o["kind"] == "pw"}
         gone = sorted(ids - ctx.corpus_hits)
@@ -362,26 +428,37 @@ def run(ctx):
             ctx.note(f"finding singles_sqrt_branch: corpus inputs {', '.join(gone)} no longer reproduce on this tree")
     obs = run_harness(ctx, binp, ["c08", ctx.seed] + args, timeout=1500)
     oracle(ctx, obs)
-    for o in obs:
+    for o in sorted((x for x in obs if x["kind"] in ("pw", "eff")), key=lambda x: 0 if x["kind"] == "pw" else 1):
+        if o["kind"] == "pw" and o["tag"] != "centre" and len(ctx.cov["samples"]) < 3:
+            ctx.sample({"family": o["setup"]["family"], "tag": o["tag"], "omega_s": fh(o["ws"]), "omega_i": fh(o["wi"]), "jsi": fh(o["jsi"]),
+                        "singles_signal": fh(o["singles_s"]), "singles_idler": fh(o["singles_i"])}, limit=3)
         if o["kind"] == "pw" and o["tag"] == "centre":
             ctx.sample({"family": o["setup"]["family"], "length_um": o["setup"]["length_um"], "jsi": fh(o["jsi"]),
-                        "singles_signal": fh(o["singles_s"]), "singles_idler": fh(o["singles_i"])}, limit=4)
+                        "singles_signal": fh(o["singles_s"]), "singles_idler": fh(o["singles_i"])}, limit=5)
         if o["kind"] == "eff" and fh(o["rs"]) == 0:
-            ctx.sample({"rates": [fh(o["c"]), fh(o["rs"]), fh(o["ri"])], "efficiencies": [fh(o["symmetric"]), fh(o["signal"]), fh(o["idler"])]}, limit=6)
+            ctx.sample({"rates": [fh(o["c"]), fh(o["rs"]), fh(o["ri"])], "efficiencies": [fh(o["symmetric"]), fh(o["signal"]), fh(o["idler"])]}, limit=7)
     if os.path.exists(os.path.join(COQ, "Proofs/C08_tac.vo")) and os.path.exists(os.path.join(COQ, "Gen/Efficiencies.vo")):
         correspondence(ctx, obs)
     else:
         ctx.note("correspondence cases skipped: generated model / case tactics did not compile")
-    if (not proved or any(not v["found_input"] for v in ctx.violations)) and not any(v["found_input"] for v in ctx.violations):
+    if not quick and os.path.exists(os.path.join(COQ, "Gen/PMSingles.vo")):
+        # group I's correspondence of the GENERATED singles integrand with phasematch_singles_fiber_coupling (about 7 CPU-min per case)
+        try:
+            from vlib import pmcases
+            nok = pmcases.singles_correspondence(ctx, binp, 1)
+            ctx.log(f"S4 generated singles integrand: {nok} case(s) closed")
+        except Exception as e:
+            ctx.note(f"singles_correspondence could not run: {str(e)[:200]}")
+    if (not proved or any(not v["found_input"] for v in ctx.violations)) and not real_found(ctx):
         ctx.log("S5 deep search for a failing input (proof obligations or correspondence are broken)")
         for k in range(2):
             obs2 = run_harness(ctx, binp, ["c08", ctx.seed + 1000 + k, 240, 4, 60, 12], timeout=1500)
             oracle(ctx, obs2)
-            if any(v["found_input"] for v in ctx.violations):
+            if real_found(ctx):
                 break
     ctx.cov["rule"] = ("rate triples: fixed zero/NaN/inf/extreme cases + log-uniform rates over 24 decades, 70% with C <= min(Rs,Ri), 15% with a "
                        "zeroed singles rate; setups: 12 crystal/type/poling families x random length 0.5-20 mm, waists 20-300 um (pump, signal, "
-                       "idler independently), bandwidth, collinear (40%) or 0.2-3 deg, degenerate or +-7% non-degenerate, integrator "
+                       "idler independently), bandwidth, collinear (40%) or 0.2-5 deg, degenerate or +-7% non-degenerate, integrator "
                        "Simpson{200} or GaussLegendre{40}; kept only if |dk_z| L/2 < 0.05 at the centre; per setup the centre pair, pairs "
                        "along the anti-diagonal within +-1.5 phase-matching lobes and random pairs inside the pump envelope; limit: the same "
                        "families collinear with waists 1-3 mm; distinct = distinct (config, frequency bits)")
@@ -391,7 +468,7 @@ def run(ctx):
         "rates non-negative": "proved (sums of non-negative terms; spectra non-negative for physical setups)",
         "eta, F, R in (0,1], F = R = 1 without walk-off": "proved (Coquelicot RInt; existence of the iterated integral included)",
         "pointwise JSI <= singles": "validated_only (oracle over the property's box); the chain pointwise => rates => efficiencies is proved (C08_pointwise_partial)",
-        "no-diffraction ratio = eta F^2 / R to 1e-4": "validated_only",
+        "no-diffraction ratio = eta F^2 / R to 1e-4": "proved as a LIMIT on the generated coincidence and singles integrands (C08_limit_generated, group I's proofs over Gen/PMIntegrand.v / Gen/PMSingles.v: collinear, round beams, no apodization, ff = 0); the rate 1e-4 at waists >= 1 mm validated_only",
         "finite rates": "validated_only",
     }
     return finish(ctx, assumptions=[
